@@ -539,7 +539,7 @@ func genBatch(t *rapid.T) batch {
 }
 
 func props() []rp.Prop {
-	return []rp.Prop{rp.P[batch]{Name: "batch", Checks: ev.Pick(120, 4800) / ev.Shards(), Gen: genBatch, Check: check}}
+	return []rp.Prop{rp.P[batch]{Name: "batch", Checks: ev.Pick(120, 9600) / ev.Shards(), Gen: genBatch, Check: check}}
 }
 
 // TestAAAColdStart runs first in the process: with NO broadcast address configured, several goroutines make the
